@@ -1193,6 +1193,9 @@ contract(
 _REC = "{d}[self.glyphOrder[a]]"
 _REC_FACTS = ("implies(not " + _G + ".tt_invalid, not {r}.empty and {r}.src == " + _G + " and {r}.penGlyphSet == self.allGlyphs and {r}.round == (1 if self.roundCoordinates else 0)"
               " and {r}.dropImpliedOnCurves == self.dropImpliedOnCurves) and implies(" + _G + ".tt_invalid, {r}.empty)")
+_GN = "self.allGlyphs[n]"
+_REC_FACTS_N = ("implies(not " + _GN + ".tt_invalid, not {r}.empty and {r}.src == " + _GN + " and {r}.penGlyphSet == self.allGlyphs and {r}.round == (1 if self.roundCoordinates else 0)"
+                " and {r}.dropImpliedOnCurves == self.dropImpliedOnCurves) and implies(" + _GN + ".tt_invalid, {r}.empty)")
 _CACHE_FACTS = "all(self.glyphOrder[a] in {d} and " + _REC_FACTS.format(r=_REC) + " for a in range(len(self.glyphOrder)))"
 
 contract(
@@ -1211,10 +1214,29 @@ contract(
         "a-dict": "result is not None and self._compiledGlyphs == result",
         "every-record-from-its-source": _CACHE_FACTS.format(d="result"),
         "cache-kept": "implies(old(self._compiledGlyphs) is not None, result == old(self._compiledGlyphs))",
+        # the same facts keyed by NAME (for callers that reach a name through another enumeration of the order, e.g. sorted by depth)
+        "every-name": "all(n in result for n in set(self.glyphOrder))",
+        "every-name-from-its-source": "all(" + _REC_FACTS_N.format(r="result[n]") + " for n in set(self.glyphOrder))",
     },
     raises={"ValueError": _RAISES + " and self._compiledGlyphs is None"},
     canaries={"recompiles": "old(self._compiledGlyphs) is not None and result != old(self._compiledGlyphs)"},
+    seq_positions=True,
+    merge_branches=False,  # "cache filled" / "compiled now" stay separate paths
 )
+
+# the cached path of the same method, as setupTable_glyf meets it (light call-site contract, proved from the same body): the glyph
+# records were compiled before (compile() sets up head / hmtx first, whose bounding boxes go through getCompiledGlyphs)
+contract(
+    "ufo2ft.outlineCompiler:BaseOutlineCompiler.getCompiledGlyphs",
+    name="C02_TTCompiler.cached",
+    props=["C02"],
+    params={"self": Ref("C02_TTCompiler")},
+    returns=Dict(STR, Ref("C02_TTGlyph")),
+    requires=["self._compiledGlyphs is not None"],
+    ensures={"the-cache": "self._compiledGlyphs is not None and result == self._compiledGlyphs"},
+    canaries={"empty": "len(result) == 0"},
+)
+
 
 class _ProbeGlyphName(Val):
     """An ARBITRARY glyph name (free constant the code never sees): the clauses below are proved for every name at once, without a
@@ -1235,39 +1257,36 @@ class _ProbeGlyphName(Val):
 
 _PROBE = _ProbeGlyphName(STR, z3.String("c02_probe_glyph_name"))
 _GT = "self.otf['glyf']"
-_PSRC = "self.allGlyphs[probe]"
-_PREC = f"{_GT}.glyphs[probe]"
 _SORT_LOOP = "for name in sorted(self.glyphOrder, key=lambda n: maxComponentDepths.get(n, 0))"
+_GCG = "ufo2ft.outlineCompiler:BaseOutlineCompiler.getCompiledGlyphs"
 contract(
     "ufo2ft.outlineCompiler:OutlineTTFCompiler.setupTable_glyf",
     props=["C02"],
     params={"self": Ref("C02_TTCompiler")},
     globals={"probe": _PROBE},
+    calls={_GCG: _GCG + "#C02_TTCompiler.cached", _GCG + "#C02_TTCompiler": _GCG + "#C02_TTCompiler.cached"},
     sorted_axioms=True,
-    seq_positions=True,
     requires=[
         "'glyf' in self.tables and 'loca' in self.tables",
-        "all(n in self.allGlyphs for n in self.glyphOrder)",
-        "self._compiledGlyphs is None or (" + _CACHE_FACTS.format(d="self._compiledGlyphs") + ")",
+        # the records were compiled before, one for every name of the order (postcondition `every-name` of getCompiledGlyphs)
+        "self._compiledGlyphs is not None and all(n in self._compiledGlyphs for n in set(self.glyphOrder))",
     ],
-    modifies=["TTFont.tbl:glyf", "TTFont.tbl:loca", "self._compiledGlyphs", "self._maxComponentDepths", "TTGlyphPointPen.glyphSet", "TTGlyphPointPen.drawn",
-              f"{_GLYF}.glyphs", f"{_GLYF}.glyphOrder"],
+    modifies=["TTFont.tbl:glyf", "TTFont.tbl:loca", "self._maxComponentDepths", f"{_GLYF}.glyphs", f"{_GLYF}.glyphOrder"],
     ensures={
         "glyph-order": f"{_GT}.glyphOrder == self.glyphOrder",
-        # (for the arbitrary name `probe`)  a name of the glyph order is in the table, with THE record compiled for that name ...
-        "every-glyph-stored": f"implies(probe in self.glyphOrder, probe in {_GT}.glyphs and self._compiledGlyphs is not None and {_PREC} == self._compiledGlyphs[probe])",
-        # ... which was drawn from its own source glyph with the compiler's options (empty record for an unsupported curve structure) ...
-        "record-from-its-source": f"implies(probe in self.glyphOrder and not {_PSRC}.tt_invalid, not {_PREC}.empty and {_PREC}.src == {_PSRC} and {_PREC}.penGlyphSet == self.allGlyphs"
-                                  f" and {_PREC}.round == (1 if self.roundCoordinates else 0) and {_PREC}.dropImpliedOnCurves == self.dropImpliedOnCurves)",
-        "invalid-curves-empty": f"implies(probe in self.glyphOrder and {_PSRC}.tt_invalid, {_PREC}.empty)",
+        # (for the arbitrary name `probe`)  a name of the glyph order is in the table, and what is stored under it is THE record
+        # compileGlyphs made for that name — the same object, so everything the compileGlyphs / getCompiledGlyphs contracts say about it
+        # (own source glyph, the compiler's glyph set, rounding, empty record for unsupported curves) holds for the table entry
+        "every-glyph-stored": f"implies(probe in self.glyphOrder, probe in {_GT}.glyphs and {_GT}.glyphs[probe] == self._compiledGlyphs[probe])",
         # ... and nothing else is in the table
         "nothing-else": f"implies(probe in {_GT}.glyphs, probe in self.glyphOrder)",
+        "cache-untouched": "self._compiledGlyphs == old(self._compiledGlyphs)",
     },
-    raises={"ValueError": _RAISES + " and self._compiledGlyphs is None", "InvalidFontData": "depth_cycle(self) and not (" + _RAISES + " and self._compiledGlyphs is None)"},
+    raises={"InvalidFontData": "depth_cycle(self)"},
     canaries={"empty-table": f"probe in self.glyphOrder and probe not in {_GT}.glyphs"},
     ghost_vars={"seen": (BOOL, "False")},
     ghost={"glyf[name] = ttGlyph": ["seen = seen or name == probe"]},
-    locals={"ttGlyphs": Opt(Dict(STR, Ref("C02_TTGlyph")))},
+    locals={"ttGlyphs": Dict(STR, Ref("C02_TTGlyph"))},
     loops={
         _SORT_LOOP: Loop(
             index="i", seq="SO",
@@ -1275,9 +1294,8 @@ contract(
                 "table": "self.otf.get('glyf') is not None and glyf == self.otf['glyf']",
                 "order-kept": "glyf.glyphOrder == self.glyphOrder",
                 "seen-def": "seen == any(SO[a] == probe for a in range(i))",
-                "stored": "implies(seen, probe in glyf.glyphs and ttGlyphs is not None and glyf.glyphs[probe] == ttGlyphs[probe])",
+                "stored": "implies(seen, probe in glyf.glyphs and glyf.glyphs[probe] == ttGlyphs[probe])",
                 "only": "implies(probe in glyf.glyphs, seen)",
-                "cache": "ttGlyphs is not None and self._compiledGlyphs == ttGlyphs",
             },
         )
     },
